@@ -10,7 +10,17 @@ ASSUME = [common.TRUSTED, "extension family: grows the specification beyond the 
 META = None
 
 
+def mc_cache(run):
+    """the state machine behind WarmEdit: assignments and queries in any order; memoising variants that TLC must refute"""
+    for v in ("none", "invalidate"):
+        run.mc("MC_Cache", consts={"Variant": v, "MaxSteps": 6}, invariants=["AnswersFollowFields"], tag="MC_Cache_" + v, workers=4)
+    for v in ("memo", "at-birth"):
+        run.mc("MC_Cache", consts={"Variant": v, "MaxSteps": 4}, invariants=["AnswersFollowFields"], tag="MC_Cache_" + v.replace("-", ""),
+               expect_violation="AnswersFollowFields", workers=1)
+
+
 def check(run):
+    mc_cache(run)
     run.gen("Gen_WarmEdit")
     run.replay_and_judge()
     return vlib.finish(run, "model_checking", RULE, ASSUME)
